@@ -284,6 +284,15 @@ def discovered_names():
     lib.get_tag_name(1)
     getattr(lib, 'A')
     names = set(vars(lib)) | set(dir(lib)) | before
+    # ... and after the library has grown (caches that only appear beyond some size) and been read again
+    big = mod.TagLibrary()
+    for i in range(300):
+        big.add_tag(f'G{i}')
+        if i in (10, 40, 70, 299):
+            big.itemize()
+            big.get_tag_name(i)
+            len(big)
+    names |= {n for n in set(vars(big)) | set(dir(big)) if not (n.startswith('G') and n[1:].isdigit())}
     with open(TAGS_PATH) as f:
         idents = set(re.findall(r'[A-Za-z_][A-Za-z0-9_]*', f.read()))
     names |= {i for i in idents if hasattr(builtins, i)}
@@ -310,6 +319,11 @@ def blind_case(case):
         (mod.itemize if target == 'G' else L1.itemize)()
     add('B2')
     acc.append('B2')
+    for i in range(case.get('grow', 0)):          # the library grows on (thresholds, caches that appear at some size)
+        add(f'W{i}')
+        acc.append(f'W{i}')
+        if i % 16 == 3:
+            (mod.itemize if target == 'G' else L1.itemize)()
     obs = {'L1': observe_lib(L1, look, False), 'L2': observe_lib(L2, look, False), 'G': observe_lib(None, look, True, mod)}
     judge(obs['L1'], acc if target == 'L1' else [], False, f'L1 after blind add of {name!r} to {target}')
     judge(obs['L2'], [], False, f'bystander library after blind add of {name!r} to {target}')
@@ -604,6 +618,8 @@ def run(ctx):
     ctx.caps.append(f'depth bound {depth} per target (all histories up to that depth covered)')
     blind = [{'leg': 'blind', 'name': n, 'target': t, 'read_between': rb} for n in discovered_names()
              for t in ('L1', 'G') for rb in (False, True)]
+    blind += [{'leg': 'blind', 'name': n, 'target': t, 'read_between': False, 'grow': 40} for n in discovered_names()
+              for t in ('L1', 'G') if n.startswith('_') or not n.isidentifier() or len(n) < 12]
     for case in blind:
         ctx.traces += 1
         ctx.states += 1
